@@ -283,6 +283,7 @@ func (x *Exec) builtinExtern(st *State, key string, c *ssa.CallCommon, a []*Val,
 		use()
 		// errors.As(err, &target): an uninterpreted predicate of the error and the target type; the target is havoced
 		tk := "unknown"
+		var asTargets []*Term
 		if pt, ok := c.Args[1].Type().Underlying().(*types.Pointer); ok {
 			tk = typeKey(pt.Elem())
 		} else if mi, ok := c.Args[1].(*ssa.MakeInterface); ok {
@@ -290,13 +291,22 @@ func (x *Exec) builtinExtern(st *State, key string, c *ssa.CallCommon, a []*Val,
 				tk = typeKey(pt.Elem())
 				if al, isAl := rootAlloc(mi.X); isAl {
 					if cur, okc := st.cells[al]; okc && isSMTVal(cur) {
-						st.cells[al] = x.havocVal(al.Type().(*types.Pointer).Elem(), "as.target")
+						et := al.Type().(*types.Pointer).Elem()
+						nv := x.havocVal(et, "as.target")
+						st.cells[al] = nv
+						if _, isPtr := et.Underlying().(*types.Pointer); isPtr && nv.K == VScalar && nv.T.S == SInt {
+							asTargets = append(asTargets, nv.T)
+						}
 					}
 				}
 			}
 		}
 		r := x.ufApp("errAs."+tk, SBool, T(0))
 		x.assume(st, tImp(tEq(T(0), errNil), tNot(r)))
+		for _, tg := range asTargets {
+			// a successful As stored the matching error from the chain in the pointer target: it is not nil
+			x.assume(st, tImp(r, tNot(tEq(tg, intLit(0)))))
+		}
 		return boolVal(r), true, nil
 	case "sort.Slice", "sort.SliceStable":
 		// in-place permutation of the slice's elements (sortedness w.r.t. the closure is NOT modelled)
